@@ -75,6 +75,31 @@ chk("C20", "exploration",
     "Tools are single-threaded: scheduling variation is GOMAXPROCS/GC only. Generated (non-std) packages not yet included.",
     "runtime monitoring: repeated-run output comparison of the real tools under varied environments", "DESIGN.md §5 C20")
 
+chk("C01", "exploration",
+    "(a) Generated Wuffs programs (scenario families aimed at the checker's mechanisms: masked/clamped indexes, refined locals/fields/args/array elements, facts from assignments incl. self-referential ones, while pre/inv/post, aliasing stores, stale pure-call facts, ~mod shifts, coroutines and suspension, each as the safe form and as systematic near-misses) are given to the real checker; every accepted one is executed by a reference interpreter that evaluates every index, slice, arithmetic, conversion, assignment, argument and return obligation in ideal integers over edge/random arguments and call histories, and one in six also runs as ASan+UBSan C emitted by the real wuffs-c. (b) All of std, compiled as the checked build (the verif-tagged wuffs-c wraps every index, slice and + - * << >> / % site in a run-time assertion of its type-derived obligation) under ASan+UBSan, decodes the hostile corpus. Held on the executions observed; six genuine soundness holes found this way are repaired by fix: commits.",
+    "'For all programs' is sampled by a fixed list of scenario families; the second sentence of the property (unprovable programs are rejected) is only observed as 'no accepted near-miss misbehaved'. The checked build asserts ranges at index/slice/arithmetic sites, not refinements of stored values or I/O built-in pre-conditions (interpreter leg only). The interpreter is framework code trusted after validation against production C on the unchanged tree.",
+    "runtime monitoring: obligation assertions evaluated during execution (reference interpreter in ideal integers; checked C build emitted through a build-tagged generator hook) + ASan/UBSan over accepted programs", "DESIGN.md §5 C01, §3.1-3.3, §9")
+chk("C02", "exploration",
+    "The verif hook in lang/check records the facts the checker holds before every statement. Generated programs accepted by the real checker are executed by the reference interpreter over edge/random arguments, call histories and suspension patterns; before every statement each recorded fact, every assert condition and every loop pre/inv/post condition is evaluated in ideal integers in the concrete state and must be true. Each axiom of the checker's reasons table is instantiated over all tuples of small refined arguments with each premise present and absent.",
+    "Fact shapes the interpreter cannot evaluate are skipped and counted in the evidence. std's own facts are not evaluated (no fact emission in the checked C build).",
+    "runtime monitoring: assertions on hooked checker state (recorded facts) evaluated online by a reference interpreter during execution of accepted programs", "DESIGN.md §5 C02, §3.2-3.3")
+chk("C04", "exploration",
+    "Generated Wuffs programs (safe variants of every scenario family, 1-3 scenarios per program) are compiled by the real wuffs-c and gcc (-O2 and ASan+UBSan) and driven through call histories incl. suspend/resume with edge/random arguments and I/O buffers; per call the C's return value / status string, source and destination ri/wi, hash of bytes written, slice argument contents and all getters are compared with the trace of a reference interpreter of the Wuffs semantics. Programs on which the interpreter raised a safety or fact event are excluded.",
+    "The interpreter is trusted framework code (validated against production C on ~250 hand-written programs). SIMD, pixel types, tokens, tables and `use` are outside its subset; those constructs are only covered indirectly by C07/C09.",
+    "runtime monitoring: differential trace oracle (reference interpreter vs executions of the emitted C, two builds)", "DESIGN.md §5 C04, §3.3")
+chk("C10", "exploration",
+    "Every std package's generated C is compiled alone into a shared object and dlopen'ed (-z now) by a loader that, inside the running process, compares writable non-RELRO segments and PT_TLS with a control object, re-hashes them after the workload, classifies every undefined and exported dynamic symbol against an allow-list derived from the parsed sources (pub funcs and per-struct helpers), probes every *__alloc under an interposed allocator, and runs decodes inside SECCOMP_MODE_STRICT (any system call kills the child); receiver and buffers are memcmp'ed around every public pure method in the loader and in seeded C08-style histories on the ASan driver.",
+    "One compiler/flag set (gcc -O2 -fPIC -fno-stack-protector -fno-builtin). Allocator/syscall absence is observed on the paths the decode corpus reaches. Generated (non-std) packages are not yet loaded.",
+    "runtime monitoring: process-level monitors (seccomp strict mode, allocator interposition, run-time enumeration of the loaded object's segments and dynamic symbols, memcmp around pure calls)", "DESIGN.md §5 C10")
+chk("C11", "exploration",
+    "Std sources, ~380 hand-written edge files, exhaustive truncations of six small files, nesting deepeners around MaxExprDepth/MaxTypeExprDepth, extreme literals/identifiers, random bytes, and token-, line- and tree-level mutants of every source file are pushed through the real Tokenize, Parse, Render and Check under recover() in a child with CPU and address-space limits; accepted packages go through the real `wuffs-c gen` and gcc -fsyntax-only. Panics, fatal errors, budget overruns and gcc rejections are violations, keyed by (function, message class). Ten genuine defects found this way are repaired by fix: commits.",
+    "The CPU budget (60 s per text, texts <= 64 KiB; the largest std file checks in ~0.1 s) is the hang oracle: there is no step counter in the Go tool-chain. gcc is the C compiler; only -fsyntax-only is run per accepted mutant.",
+    "runtime monitoring: crash/hang monitors (recover(), exit status, RLIMIT_CPU/RLIMIT_AS) and the C compiler's verdict over mutated and generated source texts", "DESIGN.md §5 C11")
+chk("C13", "exploration",
+    "rac.Writer/ChunkWriter configurations (payload class x Write partition x zlib/lz4/zstd x CChunkSize/DChunkSize x CPageSize x index location x temp-file kind x dictionaries) are written and, when Close returns nil, read back with rac.Reader (bytes must equal the concatenated Writes) and walked by an independent RAC-spec walker (magic, arity, checksum, reserved bytes, tags, DPtr/CPtr monotonicity, child/parent consistency, anti-loop rule, page padding). For small configurations every k-th underlying Write/Read/Seek is failed in turn (exhaustive per configuration): the first error must be sticky and Close must not return nil. A -race child repeats the workload.",
+    "Trusts compress/zlib, hash/crc32, bytes.Reader. A failing call fails once (transient). CChunkSize+dictionary configurations that the writer itself refuses (flate: corrupt input, recorded in tools/proposed-fixes/C13-3.md) are counted, not judged: the property speaks of writers whose Close returns nil.",
+    "runtime monitoring: conservation oracle (bytes in = bytes out) + independent spec walker + sticky-error history checker under exhaustive per-configuration fault injection; Go race detector", "DESIGN.md §5 C13")
+
 not_applicable = []
 import os
 allp = [json.loads(l)["id"] for l in open("/verif/properties.jsonl")]
@@ -90,7 +115,7 @@ m = {
         "guard": "verif (Go build tag)",
         "enable": "go build -tags verif (vcheck builds its helper binaries from /repo's working tree through the replace directive in /verif/go.mod)",
         "baseline_off_cmd": "for m in $(cat /w/out/gomods.txt); do MF=$(cd /repo/$m && . /w/out/goenv.sh && gomodflag); (cd /repo/$m && go test $MF -json -vet=off -count=1 -timeout 25m ./...); done",
-        "source_commits": ["467f826", "7d47fbe"],
+        "source_commits": ["467f826", "7d47fbe", "7174160"],
         "add_only": True,
     },
     "engines": [
